@@ -41,7 +41,9 @@ RULE = (
     '(entry-override) the arguments of the entry instance given partly by entrypoint.execute[0].args and partly by '
     'namespace_to_flowir(override_entrypoint_args=...): every split of 3 parameters into {neither, entrypoint, '
     'override, both} x entry = workflow / component, no and empty override, unknown parameter in the override; '
-    '(prefix-names) two producers whose step names are related as strings but are different path '
+    '(variables) a component with private variables used in its own fields, called from 1-3 nested workflows whose '
+    'parameters have the same name as a variable (or not) and are forwarded directly / inside text / next to another '
+    'parameter, entry given or defaulted; (prefix-names) two producers whose step names are related as strings but are different path '
     'elements ({a,aa},{a,ab},{a,a-b},{a,a.b},{a,a_b},{sim,sim-post},{a,ba},{p,p.txt}; path none, f.txt, or spelled like '
     'either step), given different arguments and both referenced by one consumer, under all 6 orders of the execute '
     'list, as siblings / handed down through parameters / inside a nested workflow / as names of two workflow steps / '
@@ -60,10 +62,18 @@ RULE = (
     'debatable / unmodelled); mutants it classifies valid are judged as valid namespaces. A case is non-trivial if it '
     'has at least one reachable component step or is a mutant; distinct = distinct namespace document.')
 ASSUMPTIONS = [
+    'the offending locations are a function of the namespace alone: every rejected mutant is compiled again, next in the '
+    'same process, with its workflow and component template lists reversed (templates are found by name) and must '
+    'report exactly the mirrored locations (template index i -> n-1-i); not applied to duplicate template names, where '
+    'the reported one is by definition the later copy; a location [workflows|components, i|name, ...] must name a '
+    'template that exists in the namespace',
+    'component variables are private: %(v)s inside the component stays %(v)s, arguments written by a caller refer to the '
+    "caller's parameters even when the callee has a variable of that name; a parameter and a variable of one component "
+    'with the same name make the namespace invalid',
     'override_entrypoint_args names the entry arguments it replaces; arguments of entrypoint.execute[0].args it does not '
     'name stay in force (override > entrypoint arguments > declared default), an empty or absent override changes nothing',
     'workflowAttributes.isRepeat (derived by FlowIR from repeatInterval) is not compared; %(v)s with v a component '
-    'variable is not modelled, values of variables are compared like any other field',
+    'variable stays as it is, values of variables are compared like any other field',
     'the meaning of a namespace is the one given in the module documentation of experiment.model.frontends.dsl: '
     '%(p)s refers to a parameter of the enclosing template instance, <s/...> is relative to the workflow that spells it, '
     'text appended to a parameter that carries a reference extends that reference',
@@ -71,7 +81,7 @@ ASSUMPTIONS = [
     'fields + argument tokens with references abstracted to (path, method); edge labels = references (path, method) and '
     'argument positions',
     'excluded as grey zone (never generated): a path appended to a reference inside component arguments, references or '
-    'parameter references inside defaults, explicit null defaults, dictionary parameters, component variables, '
+    'parameter references inside defaults, explicit null defaults, '
     '%(replica)s, input./data. parameters, key outputs, literals containing whitespace, <, >, quotes or ":method"',
     'debatable namespaces (reference without any method, reference that ends on a workflow, odd step names) may be '
     'rejected with a proper error or compiled into a validator-clean FlowIR; any other exception or non-termination '
@@ -107,6 +117,44 @@ def _find_dsl_error(exc):
     return None
 
 
+def _raw(x):
+    return x if (isinstance(x, int) and not isinstance(x, bool)) else str(x)
+
+
+def reordered(doc):
+    """the same namespace with the lists of workflow and component templates reversed (templates are found by name)"""
+    d = copy.deepcopy(doc)
+    for k in ('workflows', 'components'):
+        if d.get(k):
+            d[k] = d[k][::-1]
+    return d
+
+
+def _locations(obs, doc, mirror):
+    """sorted reported locations; mirror=True maps template indices of the reordered document back"""
+    out = []
+    for e in obs.get('errors') or []:
+        loc = list(e.get('raw') or [])
+        if mirror and len(loc) >= 2 and loc[0] in ('workflows', 'components') and isinstance(loc[1], int):
+            loc[1] = len(doc.get(loc[0]) or []) - 1 - loc[1]
+        out.append(loc)
+    return sorted(out, key=repr)
+
+
+def _dangling_location(obs, doc):
+    """a reported location that names a template which does not exist in this namespace, or None"""
+    for e in obs.get('errors') or []:
+        loc = e.get('raw') or []
+        if len(loc) >= 2 and loc[0] in ('workflows', 'components'):
+            templates = doc.get(loc[0]) or []
+            if isinstance(loc[1], int):
+                if not 0 <= loc[1] < len(templates):
+                    return loc
+            elif loc[1] != '?' and loc[1] not in [t['signature']['name'] for t in templates]:
+                return loc
+    return None
+
+
 def _compile(doc, call):
     import pydantic
     import experiment.model.errors as E
@@ -116,6 +164,7 @@ def _compile(doc, call):
             nsobj = Namespace(**copy.deepcopy(doc))
         except pydantic.ValidationError as e:
             return {'kind': 'schema-error', 'errors': [{'loc': [str(x) for x in err.get('loc', ())],
+                                                        'raw': [_raw(x) for x in err.get('loc', ())],
                                                         'msg': str(err.get('msg'))[:200]} for err in e.errors()]}
         flowir = namespace_to_flowir(nsobj, **copy.deepcopy(call))
         comps = copy.deepcopy(flowir.get_components())
@@ -129,7 +178,7 @@ def _compile(doc, call):
             for u in d.underlying_errors:
                 loc = getattr(u, 'location', None)
                 msg = u.underlying_to_str() if hasattr(u, 'underlying_to_str') else str(u)
-                errs.append({'loc': [str(x) for x in (loc or [])], 'msg': msg[:300]})
+                errs.append({'loc': [str(x) for x in (loc or [])], 'raw': [_raw(x) for x in (loc or [])], 'msg': msg[:300]})
             return {'kind': 'dsl-error', 'errors': errs}
         return {'kind': 'exception', 'type': type(e).__name__, 'msg': str(e)[:300]}
 
@@ -333,6 +382,22 @@ def judge(col, case):
         if verdict == 'valid':
             return fail('a valid namespace was rejected: %s' % json.dumps(obs['errors'])[:600],
                         'valid-rejected:%s' % _msg_class(obs['errors'][0]['msg'] if obs['errors'] else ''))
+        # the locations must belong to THIS namespace: not dangling, and - whatever was compiled before in this process -
+        # the same namespace with its template lists reversed must report the mirrored locations
+        dangling = _dangling_location(obs, doc)
+        if dangling:
+            return fail('rejected, but the location %r does not exist in the namespace: %s'
+                        % (dangling, json.dumps(obs['errors'])[:300]), 'rejection:dangling-location')
+        if okind != 'duplicate-template' and mut is not None and 'override' not in case:
+            twin = reordered(doc)
+            obs2 = observe(twin, call=call)
+            col.count('reordered_twins_compiled')
+            if obs2['kind'] != kind or _locations(obs2, twin, True) != _locations(obs, doc, False):
+                short['reordered_twin'] = {'kind': obs2['kind'], 'errors': obs2.get('errors')}
+                return fail('the same namespace with its template lists reversed (compiled next in the same process) '
+                            'reports %s %r, which are not the mirrored locations of %r'
+                            % (obs2['kind'], [e.get('raw') for e in obs2.get('errors') or []],
+                               [e.get('raw') for e in obs['errors']]), 'rejection:locations-not-of-this-namespace')
         col.outcome('%s -> %s' % (verdict, kind))
         return
     # compiled
